@@ -13,7 +13,7 @@ func init() {
 	streams["c07"] = func(seed uint64, thorough bool) { clntStream(seed, thorough, false, clntGenC07) }
 	streams["c08"] = func(seed uint64, thorough bool) { clntStream(seed, thorough, false, clntGenC08) }
 	streams["c12"] = func(seed uint64, thorough bool) { clntStream(seed, thorough, false, clntGenC12) }
-	streams["c19"] = streamC19
+	streams["c19"] = clntStreamC19
 }
 
 type clntGen func(r *rng, thorough bool, f func(c *clntCase))
@@ -29,7 +29,7 @@ func clntStream(seed uint64, thorough bool, pair bool, g clntGen) {
 }
 
 // c19: a sample of all three generators, every case run without and with hooks
-func streamC19(seed uint64, thorough bool) {
+func clntStreamC19(seed uint64, thorough bool) {
 	r := newRng(seed)
 	run := &clntRunner{}
 	i := 0
@@ -180,8 +180,39 @@ func clntMkRq(r *rng, fc, fr, variant int) *clntRq {
 	default:
 		panic("clntMkRq")
 	}
+	if tcp {
+		// the constructors draw the transaction id from math/rand: fix it from the seeded PRNG
+		clntSetTID(q.req, r.edge16())
+	}
 	q.tid, _ = projReq(q.req)
 	return q
+}
+
+func clntSetTID(req packet.Request, tid uint16) {
+	switch p := req.(type) {
+	case *packet.ReadCoilsRequestTCP:
+		p.TransactionID = tid
+	case *packet.ReadDiscreteInputsRequestTCP:
+		p.TransactionID = tid
+	case *packet.ReadHoldingRegistersRequestTCP:
+		p.TransactionID = tid
+	case *packet.ReadInputRegistersRequestTCP:
+		p.TransactionID = tid
+	case *packet.WriteSingleCoilRequestTCP:
+		p.TransactionID = tid
+	case *packet.WriteSingleRegisterRequestTCP:
+		p.TransactionID = tid
+	case *packet.WriteMultipleCoilsRequestTCP:
+		p.TransactionID = tid
+	case *packet.WriteMultipleRegistersRequestTCP:
+		p.TransactionID = tid
+	case *packet.ReadServerIDRequestTCP:
+		p.TransactionID = tid
+	case *packet.ReadWriteMultipleRegistersRequestTCP:
+		p.TransactionID = tid
+	default:
+		panic("clntSetTID: not a TCP request")
+	}
 }
 
 // ---------- replies (built here from the protocol description, not with the library's encoders) ----------
@@ -404,6 +435,11 @@ func clntGenC08(r *rng, thorough bool, f func(c *clntCase)) {
 		// more bytes than a frame can hold: far too many, and one too many
 		mk(kind, q, rep, clntScript{fl: fl, steps: append(pre(), clntData(junk(300)))})
 		mk(kind, q, rep, clntScript{steps: append(pre(), clntData(junk(maxLen+1-k)))})
+		if kind == 1 && k < 200 {
+			// the RTU network client shares the limit of 260 with the TCP client: 257..260 bytes
+			// are not "too long" for it (correspondence only; the verdict does not judge these)
+			mk(kind, q, rep, clntScript{steps: append(pre(), clntData(junk(257+r.intn(4)-k)))})
+		}
 		// the caller cancels
 		mk(kind, q, rep, clntScript{steps: append(pre(), clntCtx())})
 		mk(kind, q, rep, clntScript{steps: append(pre(), clntQuiet(), clntQuiet(), clntCtx())})
